@@ -112,7 +112,7 @@ def extra_scenarios(tier, seed):
         if not mask.any():
             mask[0] = True
         out.append({"R": int(rng.integers(1, 6)), "P": int(rng.integers(1, 9)), "V": V, "mask": [bool(b) for b in mask],
-                    "shared": bool(rng.integers(2)), "method": ["norm", "uniform", "truncnorm", "sobol", "halton", "lhs"][int(rng.integers(6))],
+                    "shared": bool(rng.integers(2)), "method": ["norm", "uniform", "truncnorm", "sobol", "halton", "lhs", "default", "scipy/default"][int(rng.integers(8))],
                     "two": bool((~mask).any() and rng.integers(2)), "seed": int(rng.integers(1, 1000))})
     return out
 
